@@ -127,12 +127,31 @@ class Agg:
                                       "count": e["count"], "examples": e["examples"]})
 
 
-def replay_cases(vh, universe, cases, seed):
+def replay_cases(vh, universe, cases, seed, prefix=None):
     lines = [json.dumps({"flows": universe}, separators=(",", ":"))] + [json.dumps(c, separators=(",", ":")) for c in cases]
-    rc, outs, _ = vlib.run_vh(vh, ["cond-replay", "-seed", str(seed)], stdin_lines=lines, timeout=1800)
+    rc, outs, _ = vlib.run_vh(vh, ["cond-replay", "-seed", str(seed)], stdin_lines=lines, timeout=1800, prefix=prefix)
     summ = [o for o in outs if o.get("summary")]
     vlib.require(summ and summ[0]["conditions"] == len(cases), "cond-replay did not process all cases")
     return summ[0], [o for o in outs if o.get("ok") is False]
+
+
+def _hosts_prefix(sc, names):
+    """Command prefix that runs the harness in a private mount namespace in which /etc/hosts is the
+    specification's resolver table (Names); None when the sandbox does not allow that."""
+    hosts = os.path.join(sc, "hosts")
+    with open(hosts, "w") as fh:
+        fh.write("127.0.0.1 localhost\n")
+        for name in sorted(names):
+            for a in sorted(names[name], key=lambda x: (len(x), x)):
+                ip = ".".join(map(str, a)) if len(a) == 4 else \
+                    ":".join("%x" % (a[i] * 256 + a[i + 1]) for i in range(0, 16, 2))
+                fh.write("%s %s\n" % (ip, name))
+    prefix = ["unshare", "-m", "sh", "-c", 'mount --bind "$0" /etc/hosts && exec "$@"', hosts]
+    try:
+        p = subprocess.run(prefix + ["grep", "-c", "two4.test", "/etc/hosts"], stdout=subprocess.PIPE, stderr=subprocess.PIPE, text=True, timeout=30)
+    except (OSError, subprocess.TimeoutExpired):
+        return None
+    return prefix if p.returncode == 0 and p.stdout.strip() == "2" else None
 
 
 def main():
@@ -207,6 +226,31 @@ def main():
                 agg.add(desc, universe, c, {"text": o["text"], "flow": fl, "kind": f["kind"], "exp": f.get("exp"),
                                            "got": f.get("got"), "msg": f.get("msg", "").split("\n")[0][:300]})
         run.cov["failing_facts_F"] = nfail
+        # ---- host names as values: the generator's "names" family, executed with the specification's
+        # resolver table as /etc/hosts (private mount namespace)
+        gn = vlib.tlc("cond", "CondGen", "CondGen.cfg", scratch=sc, timeout=600, consts='CONSTANT GenSet = "names"')
+        vlib.expect_tlc_ok(gn, "CondGen names")
+        vlib.require(len(gn.traces) > 100 and gn.infos and gn.infos[0].get("names"), "generator produced no host name cases")
+        prefix = _hosts_prefix(sc, gn.infos[0]["names"])
+        if prefix is None:
+            run.note("host names as condition values were not exercised: a private mount namespace (unshare -m) is not available")
+            run.cov["host_name_conditions_replayed"] = 0
+        else:
+            ncases = sorted(gn.traces, key=lambda c: (c["h"], json.dumps(c["tree"], sort_keys=True)))
+            nsumm, nbad = replay_cases(vh, universe, ncases, run.seed, prefix=prefix)
+            run.add_tlc(gn, "CondGen names")
+            run.count(nsumm["evaluations"])
+            run.cov["traces_validated_against_impl"] += len(ncases)
+            run.cov["host_name_conditions_replayed"] = len(ncases)
+            for o in nbad:
+                c = o["case"]
+                named = [a for a in atoms_of(c["tree"]) if a["sym"] and a["attr"] in ("sip", "dip")]
+                for f in o["fails"]:
+                    nfail += 1
+                    desc = {"cls": "host-name-value", "kind": f["kind"],
+                            "cmp": sorted({a["cmp"] for a in named}), "addresses": sorted({len(gn.infos[0]["names"][a["sym"]]) for a in named})}
+                    agg.add(desc, universe, c, {"text": o["text"], "flow": f["flow"], "kind": f["kind"], "exp": f.get("exp"),
+                                               "got": f.get("got"), "msg": f.get("msg", "").split("\n")[0][:300]})
         # negative control: a corrupted expectation must be rejected by the binding
         badids = {o["id"] for o in bad}
         okcase = next(c for i, c in enumerate(cases) if i not in badids and c["h"] >= 1)
